@@ -918,3 +918,6 @@ func ReachingStoreAny(a *ssa.Alloc) ssa.Value {
 	}
 	return v
 }
+
+// InstrDominates: every path to y passes x first.
+func InstrDominates(x, y ssa.Instruction) bool { return instrDominates(x, y) }
